@@ -592,6 +592,7 @@ CLAUSES = [w + op + p for w in WHO for op in "+-=" for p in PERMS]
 class C08(Prop):
     id = "C08"
     theorems = []
+    exhaustive_tags = ["octal3", "octal4", "clause1"]
     rule = ("all 4096 octal values in 3- and 4-digit spelling, all 315 single clauses, two-clause lists (10 000 sampled "
             "quick / all 99 225 thorough), sampled three- and four-clause lists, each under the three prefixes; "
             "compared: kind and bits in the tree and mask/constant in the emitted comparison. Non-trivial: all")
